@@ -520,9 +520,109 @@ func outerCancel(s *simrt.Sim) {
 	// (whether Run itself returns is not part of the property: not checked)
 }
 
+// outerCancelWaiters: a writer holds the outer-cancel lock for as long as the harness says; readers ask with
+// contexts that are then cancelled (some queue up behind another waiter, reader or writer, that the Run loop is
+// busy with). A waiter whose context ends stops waiting - while the writer still holds - and leaves no hold behind.
+func outerCancelWaiters(s *simrt.Sim) {
+	grace := 5 * time.Millisecond
+	o := lock.NewOuterCancel(errOuter, grace)
+	runCtx, stopRun := context.WithCancel(context.Background())
+	defer stopRun()
+	s.Go("run", func() { o.Run(runCtx) })
+	var held, release bool
+	s.Go("w0", func() {
+		unlock := o.Lock()
+		held = true
+		s.WaitUntil("hold", 0, func() bool { return release })
+		unlock()
+	})
+	if !s.WaitUntil("w0held", time.Hour, func() bool { return held }) {
+		s.Fail("hang", "the first writer was never granted\n"+s.Dump())
+		return
+	}
+	// optionally a second writer, which parks the Run loop until w0 unlocks
+	w1 := s.Choose(3, "secondwriter") == 0
+	if w1 {
+		s.Go("w1", func() {
+			s.Sleep(time.Duration(s.Choose(3, "w1start")) * time.Millisecond)
+			unlock := o.Lock()
+			if !release {
+				s.Fail("two-writers", "two outer-cancel writers hold the lock at once")
+			}
+			unlock()
+		})
+	}
+	n := 1 + s.Choose(3, "readers")
+	var names []string
+	var cancels []context.CancelFunc
+	admitted := 0
+	for i := 0; i < n; i++ {
+		ctx, cancel := context.WithCancel(context.Background())
+		cancels = append(cancels, cancel)
+		name := fmt.Sprintf("r%d", i)
+		names = append(names, name)
+		startAt := time.Duration(s.Choose(4, "rstart")) * time.Millisecond
+		s.Go(name, func() {
+			s.Sleep(startAt)
+			rctx, rcancel, err := o.RLock(ctx)
+			if err != nil {
+				s.Logf("%s: %v", name, err)
+				return
+			}
+			if !release && rctx.Err() == nil {
+				s.Fail("reader-during-writer", "a reader was admitted with a live context while a writer holds the lock")
+			}
+			admitted++
+			rcancel()
+		})
+	}
+	names = append(names, "canceller")
+	s.Go("canceller", func() {
+		s.Sleep(time.Duration(s.Choose(6, "cancelAt")) * time.Millisecond)
+		for _, c := range cancels {
+			c()
+			s.Fault("ctx.cancel")
+			s.Yield("cancel")
+		}
+	})
+	if !s.Join(time.Hour, names...) {
+		qualifier = "outercancel"
+		s.Fail("waiter-stuck", "lock.OuterCancel: a reader whose context ended is still waiting in RLock while a writer holds the lock\n"+s.Dump())
+		return
+	}
+	s.Probe("outercancel.waiters-left")
+	release = true
+	ws := []string{"w0"}
+	if w1 {
+		ws = append(ws, "w1")
+	}
+	if !s.Join(time.Hour, ws...) {
+		s.Fail("hang", "outer-cancel writers did not finish\n"+s.Dump())
+		return
+	}
+	// nothing is held: a new writer does not have to wait out a grace period for a reader that gave up
+	s.Sleep(time.Millisecond)
+	t0 := time.Now()
+	var grantedAt time.Time
+	s.Go("probe", func() {
+		unlock := o.Lock()
+		grantedAt = time.Now()
+		unlock()
+	})
+	if !s.Join(time.Hour, "probe") {
+		s.Fail("hang", "a writer arriving after every client had finished was never granted\n"+s.Dump())
+		return
+	}
+	if d := grantedAt.Sub(t0); d >= grace {
+		s.Fail("leaked-hold", fmt.Sprintf("outer-cancel: every reader had given up or released (%d admitted), yet a new writer waited %v (the grace period is %v): a read hold is still registered", admitted, d, grace))
+	}
+}
+
 func body(s *simrt.Sim, tier string) {
 	qualifier = ""
-	switch s.Choose(5, "primitive") {
+	switch s.Choose(6, "primitive") {
+	case 5:
+		outerCancelWaiters(s)
 	case 0:
 		fifoMutex(s)
 	case 1:
